@@ -42,12 +42,15 @@ impl Configuration for KI {
 
 /// One allocated input on a real `Table` page of the runtime, with the given per-field stamps.
 pub(crate) fn alloc_input(rt: &Runtime, ing: &IngredientImpl<KI>, revs: [Revision; 2], durs: [Durability; 2]) -> Id {
+    alloc_input_v(rt, ing, (10, 20), revs, durs)
+}
+pub(crate) fn alloc_input_v(rt: &Runtime, ing: &IngredientImpl<KI>, fields: (u32, u32), revs: [Revision; 2], durs: [Durability; 2]) -> Id {
     let types = ing.memo_table_types.clone();
     let page = rt.table().push_page::<Value<KI>>(ing.ingredient_index, types.clone());
     // SAFETY: unique writer
     let (id, _) = unsafe {
         rt.table().page::<Value<KI>>(page).allocate(page, |_| Value::<KI> {
-            fields: (10, 20),
+            fields,
             revisions: revs,
             durabilities: durs,
             // SAFETY: same memo table types as the ingredient
@@ -57,6 +60,10 @@ pub(crate) fn alloc_input(rt: &Runtime, ing: &IngredientImpl<KI>, revs: [Revisio
     .ok()
     .unwrap();
     id
+}
+/// Current field values of an input (no read is recorded).
+pub(crate) fn fields_of(z: &Zalsa, id: Id) -> (u32, u32) {
+    z.table().get::<Value<KI>>(id).fields
 }
 
 //@ob id=K-IN-1 kind=C props=C01,C02,C03 timeout=600 fn=IngredientImpl::set_field
@@ -135,7 +142,7 @@ fn k_in_2_never_change_write_panics() {
     std::mem::forget(ing);
 }
 
-//@off(cbmc-does-not-finish) id=K-IN-3 kind=B bound=one-IndexSet-insert props=C01,C02,C03 timeout=900 fn=IngredientImpl::field,ZalsaLocal::report_tracked_read_simple,IngredientIndex::successor
+//@off(pending-measurement) id=K-IN-3 kind=B bound=one-IndexSet-insert props=C01,C02,C03 timeout=900 fn=IngredientImpl::field,ZalsaLocal::report_tracked_read_simple,IngredientIndex::successor
 //@ pre: an input whose two fields have any (revision, durability); an active query frame; read field fi
 //@ post: the frame's stamp becomes (min(NEVER_CHANGE, durability[fi]), max(start, revision[fi])) - i.e. exactly the stamp of *that* field, not the other; the returned fields are the stored ones
 #[cfg_attr(kani, kani::proof)]
